@@ -255,10 +255,8 @@ func checkC03(c *Ctx) {
 		for _, in := range b.Instrs {
 			switch x := in.(type) {
 			case *ssa.Go:
-				for _, t := range m.funcValueTargets(x.Call.Value) {
-					if m.reachesStoreOp(t) {
-						return true
-					}
+				if m.spawnsStoreOp(x) {
+					return true
 				}
 			case *ssa.BinOp:
 				if x.Op == token.ADD {
@@ -365,12 +363,8 @@ func checkC03(c *Ctx) {
 		if _, ok := m.isKVCall(valueOf(in), ""); ok {
 			issue = true
 		}
-		if g, ok := in.(*ssa.Go); ok {
-			for _, t := range m.funcValueTargets(g.Call.Value) {
-				if m.reachesStoreOp(t) {
-					issue = true
-				}
-			}
+		if m.spawnsStoreOp(in) {
+			issue = true
 		}
 		if !issue || !inLoop(in.Block()) {
 			return
@@ -392,19 +386,18 @@ func checkC03(c *Ctx) {
 				claimStore = in
 			}
 		})
-		eachInstr(unit, func(in ssa.Instruction) {
-			g, ok := in.(*ssa.Go)
-			if !ok {
-				return
+		for _, sp := range m.Spawns() {
+			if sp.Fn != unit {
+				continue
 			}
-			for _, t := range m.funcValueTargets(g.Call.Value) {
+			for _, t := range sp.Targets {
 				if m.staticReach(t, false)[rf] {
 					started = true
-					c.check(claimStore != nil && dominatesInstr(claimStore, g) && la.MustBefore(g)[m.implMuW()] && m.goTracked(g), "R4", "claim implies refresh loop: started by "+shortFn(unit), g,
-						"claim store dominates the go: %v; under the election mutex: %v; tracked by the WaitGroup: %v", claimStore != nil && dominatesInstr(claimStore, g), la.MustBefore(g)[m.implMuW()], m.goTracked(g))
+					c.check(claimStore != nil && dominatesInstr(claimStore, sp.At) && la.MustBefore(sp.At)[m.implMuW()] && sp.Tracked, "R4", "claim implies refresh loop: started by "+shortFn(unit), sp.At,
+						"claim store dominates the go: %v; under the election mutex: %v; tracked by the WaitGroup: %v", claimStore != nil && dominatesInstr(claimStore, sp.At), la.MustBefore(sp.At)[m.implMuW()], sp.Tracked)
 				}
 			}
-		})
+		}
 	}
 	if !started {
 		c.viol("R4", "claim implies refresh loop", nil, "no claim-set unit starts the refresh loop: a claim without heartbeats outlives its record")
